@@ -1,6 +1,6 @@
 (* C04 - no client input can crash the handler or make it allocate unboundedly.
    Pinned statements. *)
-From Passage Require Import Lib.Bytes Codec.VarInt Codec.Desc Codec.NoPanic Gen.PacketsGen Conn.Types Conn.Prog
+From Passage Require Import Lib.Bytes Codec.VarInt Codec.Desc Codec.NoPanic Codec.Alloc Codec.AllocProofs Gen.PacketsGen Conn.Types Conn.Prog
   Conn.Sem1 Conn.Sem2 Conn.Monitor Conn.MonitorProofs Conn.Monitor2Proofs Conn.Order Conn.OrderProofs Conn.Reader Conn.ReaderProofs.
 
 (* the decoders never reach a panic, for every description and every byte string *)
@@ -54,6 +54,31 @@ Theorem C04_eof_ends_expect : forall cfg e k s t rest,
   exec cfg e (Expect k) s = [(Z.max t (s_now s), TEnd (OErr KClosed))].
 Proof. intros cfg e k s t rest H. cbn [exec]. unfold next_frame. rewrite H. reflexivity. Qed.
 
+(* memory: the largest buffer the packet decoders reserve or fill for a body [bs] (Codec/Alloc.v:
+   read_bytes / read_string fill a buffer through take(len), so it never holds more than the
+   bytes that really arrived; the u16-prefixed text component reserves its declared length ahead
+   of the data) never exceeds the body's own length, except for that one text buffer (< 2^16).
+   With C04_buffer_bounded (a body is at most the configured maximum) the handler's memory per
+   frame is bounded by max(max_packet_length, 65535) whatever lengths the client declares. *)
+Theorem C04_decoder_memory_bounded : forall vi vl ds bs,
+  Forall (fun b => 0 <= b < 256) bs ->
+  0 <= mem_dec vi vl ds bs <= Z.max (Z.of_nat (length bs)) 65535.
+Proof. exact mem_dec_bound. Qed.
+
+Theorem C04_decoder_memory_bounded_no_text : forall vi vl ds bs,
+  forallb no_text ds = true -> 0 <= mem_dec vi vl ds bs <= Z.of_nat (length bs).
+Proof. exact mem_dec_bound_nt. Qed.
+
+(* non-vacuity: a 6-byte Login Start body whose name declares 2^31-1 bytes makes the decoder
+   hold the 1 byte that follows, not 2 GiB; a declared length of -1 reserves nothing *)
+Example C04_memory_hostile_length :
+  mem_dec 5 10 [KString; KUuid] [255; 255; 255; 255; 7; 65] = 1
+  /\ mem_dec 5 10 [KString; KUuid] [255; 255; 255; 255; 15; 65] = 0
+  /\ mem_dec 5 10 [KText] [8; 64; 0; 1] = 16384.
+Proof. vm_compute. repeat split; reflexivity. Qed.
+
+Print Assumptions C04_decoder_memory_bounded.
+Print Assumptions C04_decoder_memory_bounded_no_text.
 Print Assumptions C04_decoder_no_panic.
 Print Assumptions C04_handler_no_panic.
 Print Assumptions C04_length_checked_first.
